@@ -1001,6 +1001,78 @@ pub fn c11(tier: &str, out: Option<&Path>) -> i32 {
             }
         }
         histories.fetch_add(total as u64, Ordering::Relaxed);
+        // ---- bulk family: free the first / last k frames of one tree (counter boundaries up
+        // to the whole tree), all through the slot / all without / alternating / half-half
+        let mut amounts = vec![1usize, 2, 63, 64, 65, HUGE_FRAMES - 1, HUGE_FRAMES, HUGE_FRAMES + 1, TREE_FRAMES - 1, TREE_FRAMES];
+        amounts.sort();
+        amounts.dedup();
+        let mut bulk = 0u64;
+        for t in 0..cfg.trees() {
+            let ts = t * TREE_FRAMES;
+            let te = ((t + 1) * TREE_FRAMES).min(*n);
+            for &k in &amounts {
+                if k > te - ts {
+                    continue;
+                }
+                for from_end in [false, true] {
+                    for mode in 0..4usize {
+                        for extra_other in [false, true] {
+                            sut.bufs.restore(&base);
+                            let start = if from_end { te - k } else { ts };
+                            let mut freed = 0usize;
+                            for (i, f) in (start..start + k).enumerate() {
+                                let local = match mode {
+                                    0 => Some(0),
+                                    1 => None,
+                                    2 => (i % 2 == 0).then_some(0),
+                                    _ => (i < k / 2).then_some(0),
+                                };
+                                let r = sut.apply(&Op::Put { frame: f, order: 0, class: 0, local });
+                                ev += 1;
+                                if r == Res::Done {
+                                    freed += 1;
+                                }
+                            }
+                            if extra_other {
+                                // one more frame in another tree, without slot
+                                let other = (t + 1) % cfg.trees();
+                                if other != t {
+                                    let f = other * TREE_FRAMES + 3;
+                                    if sut.apply(&Op::Put { frame: f, order: 0, class: 0, local: None }) == Res::Done {
+                                        freed += 1;
+                                    }
+                                }
+                            }
+                            let mut got = 0usize;
+                            while got <= freed {
+                                ev += 1;
+                                match sut.apply(&get) {
+                                    Res::Got(..) => got += 1,
+                                    _ => break,
+                                }
+                            }
+                            bulk += 1;
+                            if got != freed {
+                                col.lock().unwrap().add(
+                                    Violation::new(
+                                        "C11",
+                                        "allocation through the single slot failed although a frame is free",
+                                        format!(
+                                            "{}: after exhaustion, freeing {k} frames {}..{} of tree {t} (slot's reserved tree: {rt}; mode {}; extra frame in another tree: {extra_other}): only {got} of {freed} allocations succeeded",
+                                            cfg.describe(), start, start + k,
+                                            ["all through the slot", "all without slot", "alternating", "first half through the slot"][mode]
+                                        ),
+                                    ),
+                                    || json!({"engine": "dom", "check": "C11-bulk", "config": cfg.json(), "tree": t, "k": k,
+                                        "from_end": from_end, "mode": mode, "extra_other": extra_other}),
+                                );
+                            }
+                        }
+                    }
+                }
+            }
+        }
+        histories.fetch_add(bulk, Ordering::Relaxed);
         evals.fetch_add(ev, Ordering::Relaxed);
     });
     dom_finish(
@@ -1009,7 +1081,7 @@ pub fn c11(tier: &str, out: Option<&Path>) -> i32 {
         t0,
         evals.load(Ordering::Relaxed),
         histories.load(Ordering::Relaxed),
-        "per configuration: exhaust memory through slot 0 (order 0, class 0), then every assignment of {keep, free through the slot, free without slot} to 8-10 structurally chosen frames (5 in the slot's reserved tree: first, second, another row, last, another huge frame; the rest first/last/middle of other trees), then allocate until out of memory: successes must equal frees. distinct_nontrivial = number of histories",
+        "per configuration: exhaust memory through slot 0 (order 0, class 0), then every assignment of {keep, free through the slot, free without slot} to 8-10 structurally chosen frames (5 in the slot's reserved tree: first, second, another row, last, another huge frame; the rest first/last/middle of other trees), then allocate until out of memory: successes must equal frees. Bulk family: per tree, free the first/last k frames for k in {1,2,63,64,65,HUGE-1,HUGE,HUGE+1,TREE-1,TREE} all through the slot / all without / alternating / half-half, optionally plus one frame of another tree. distinct_nontrivial = number of histories",
         vec![json!({"frames": 2 * TREE_FRAMES, "classing": "single[(0,1)]", "assignment": "3^k codes, e.g. [free@slot, keep, free no slot, ...]"})],
         json!({"configurations": jobs.len(), "histories": histories.load(Ordering::Relaxed)}),
         vec!["'any subset' is every assignment over a structurally chosen candidate set, not every subset of all frames".into()],
